@@ -1379,7 +1379,7 @@ DATATYPES = {
         FloatRange(min=min, max=max, **floatargs(kwds)),
     'blob': lambda maxbytes, minbytes=0, **kwds:
         BLOBType(minbytes=minbytes, maxbytes=maxbytes),
-    'string': lambda minchars=0, maxchars=None, isUTF8=False, **kwds:
+    'string': lambda minchars=0, maxchars=UNLIMITED, isUTF8=False, **kwds:
         StringType(minchars=minchars, maxchars=maxchars, isUTF8=isUTF8),
     'array': lambda maxlen, members, minlen=0, pname='', **kwds:
         ArrayOf(get_datatype(members, pname), minlen=minlen, maxlen=maxlen),
